@@ -70,7 +70,7 @@ def show(v):
 
 def build(case):
     from pipefunc import PipeFunc, Pipeline
-    from sim.genpipe import build_inputs, map_kwargs
+    from sim.genpipe import array_defaults, build_inputs, map_kwargs
     from sim.userfuncs import Fn
 
     w = case["workload"]
@@ -83,6 +83,8 @@ def build(case):
         if fd.get("out_shape") and w.get("internal_via", "pipefunc") == "pipefunc":
             kw["internal_shape"] = tuple(fd["out_shape"])
         defaults = {k: Box(v) for k, v in (fd.get("defaults") or {}).items()}
+        for k, v in array_defaults(w, fd).items():
+            defaults[k] = [Box(x) for x in v] if isinstance(v, list) else v
         pfs.append(PipeFunc(Wrapped(fn), out, mapspec=fd.get("mapspec"), defaults=defaults or None,
                             bound=dict(fd.get("bound") or {}) or None, **kw))
     inputs = {}
